@@ -135,7 +135,7 @@ impl Stepper for FragBucketsIter {
 
 /// the universally quantified index `m` of the step contract; the find_map model
 /// instantiates its (universally quantified) assumed postcondition at this index
-static mut WITNESS: usize = 0;
+static mut WITNESS: usize = 0x5EED_0C38_5EED_0C38; // distinctive (see shims/clock.rs); set before every use
 
 pub(crate) struct ModelRange {
     lo: usize,
